@@ -182,6 +182,12 @@ func c38GenReq(rt *rapid.T, idx int) *c38Req {
 				}
 				fallthrough
 			default:
+				if rapid.IntRange(0, 4).Draw(rt, "overlap") == 0 {
+					// a name that other responses use as a trailer, here as a plain header
+					// (possibly undeclared): key names overlap across consecutive streams
+					setHeader(rapid.SampledFrom(append(append([]string{}, c38TrailerNames...), c38LateTrailerNames...)).Draw(rt, "overlapName"))
+					continue
+				}
 				setHeader(rapid.SampledFrom(c38HeaderNames).Draw(rt, "name"))
 			case 2:
 				if allowSpecial {
@@ -273,7 +279,7 @@ func c38GenReq(rt *rapid.T, idx int) *c38Req {
 	}
 	lateHeader := func() {
 		if rapid.IntRange(0, 2).Draw(rt, "late") == 0 {
-			setHeader(rapid.SampledFrom([]string{"X-Late-Header", "X-Custom", "Server"}).Draw(rt, "lateName"))
+			setHeader(rapid.SampledFrom([]string{"X-Late-Header", "X-Custom", "Server", "X-Trailer-A", "Grpc-Status"}).Draw(rt, "lateName"))
 		}
 	}
 	off := 0
@@ -530,6 +536,17 @@ func c38Run(rt *rapid.T, rec *ev.Rec) {
 		for _, t := range decl {
 			for _, v := range final[t] {
 				wantTrailer = append(wantTrailer, kv{strings.ToLower(t), v})
+			}
+		}
+		for _, nm := range append(append([]string{}, c38TrailerNames...), c38LateTrailerNames...) {
+			isDecl := false
+			for _, t := range decl {
+				if t == nm {
+					isDecl = true
+				}
+			}
+			if _, set := m.hdr[nm]; set && !isDecl {
+				classes["trailer-name-as-undeclared-header"] = true
 			}
 		}
 		if len(decl) > 0 {
